@@ -269,6 +269,9 @@ def replay_histories(histories, driver, split_depth=2, procs=None, label=None):
     if p.returncode != 0 or not os.path.exists(out_file):
         raise MachineryError("replay worker failed (rc=%s):\n%s" % (p.returncode, p.stdout[-3000:]))
     acc = json.load(open(out_file))
+    for m in acc["mm"]:
+        # enough to re-execute this history alone (./check <id> --replay <file>)
+        m["driver"] = {"spec": driver.SPEC, "kwargs": driver.kwargs}
     acc["edges"] = edges
     if acc["n"] != edges:
         raise MachineryError("replay executed %d of %d edges" % (acc["n"], edges))
@@ -455,7 +458,7 @@ class Verdict:
             path = os.path.join(d, h + ".json")
             with open(path, "w") as f:
                 json.dump({"property": self.prop, "key": k, "detail": v.get("detail"),
-                           "history": v.get("path"), "tier": self.tier, "seed": self.seed}, f, indent=1, default=str)
+                           "history": v.get("path"), "driver": v.get("driver"), "tier": self.tier, "seed": self.seed}, f, indent=1, default=str)
             print("VIOLATION property=%s replay=%s" % (self.prop, path))
             print("  key: %s" % k)
             print("  detail: %s" % str(v.get("detail"))[:600])
